@@ -56,7 +56,6 @@ def gen_rt(seed, tier="quick"):
     if rng.random() < 0.25 and "external" not in scn["rt"]:
         # the shipped LocalProxy: synchronous in-process simulators (a whole step completes before the next process starts)
         scn["transport"] = "local"
-        scn["rt"]["instant"] = True
         for s in scn["sims"]:
             s["gen"] = True
     yield {"id": [seed, "rt"], "scn": scn, "seed": seed, "behaviour": beh, "policy": {"kind": "timer"}}
